@@ -467,6 +467,15 @@ class CSemantics:
                     f"Invalid type ({type_to_str(ctyp)}) for bit-field",
                     location,
                 )
+            # The width is an integer constant expression, at most the
+            # width of the type (C11 6.7.2.1p4):
+            self.ensure_integer(bitsize)
+            self.ensure_constant(bitsize, "Bit-field width")
+            width = self.eval_expr(bitsize)
+            if not 0 <= width <= 8 * self.context.sizeof(ctyp):
+                self.error(f"Invalid bit-field width {width}", location)
+            if width == 0 and name is not None:
+                self.error("A named bit-field cannot have width zero", location)
 
         field = types.Field(ctyp, name, bitsize)
         return field
